@@ -59,6 +59,10 @@ class HashedIterable(Generic[T]):
     """
     iterable: Iterable[HashedValue[T]] = field(default_factory=list)
     values: Dict[int, HashedValue[T]] = field(default_factory=dict)
+    pulled: List[HashedValue[T]] = field(default_factory=list, init=False, repr=False)
+    """
+    The values pulled from the iterable so far, in the order they were pulled.
+    """
 
     def __post_init__(self):
         if self.iterable and not isinstance(self.iterable, HashedIterable):
@@ -105,6 +109,7 @@ class HashedIterable(Generic[T]):
 
     def clear(self):
         self.values.clear()
+        self.pulled.clear()
 
     def __iter__(self):
         """
@@ -114,13 +119,28 @@ class HashedIterable(Generic[T]):
         """
         # a snapshot: while this iterator is suspended the consumer may add values (constructing an instance of a class
         # adds to the registry store of that class), which must not break the iteration.
+        position = len(self.pulled)
         yield from list(self.values.values())
-        for v in self.iterable:
-            if v.id_ in self.values:
-                # listed more than once: it was already yielded, and later iterations will yield it once as well.
-                continue
-            self.values[v.id_] = v
-            yield v
+        while True:
+            # the iterable is shared by every iteration over this object: what another iteration pulled while this one was
+            # suspended (two variables over the same sub-query, two result iterators over the same variable) is replayed
+            # here, it cannot be pulled again.
+            while position < len(self.pulled):
+                position += 1
+                yield self.pulled[position - 1]
+            for v in self.iterable:
+                if v.id_ in self.values:
+                    # listed more than once: it was already yielded, and later iterations will yield it once as well.
+                    continue
+                self.values[v.id_] = v
+                self.pulled.append(v)
+                position = len(self.pulled)
+                yield v
+                if position < len(self.pulled):
+                    break
+            else:
+                if position >= len(self.pulled):
+                    return
 
     def __or__(self, other) -> HashedIterable[T]:
         return self.union(other)
